@@ -502,7 +502,7 @@ def o_pub_refused_accepted(ad, a, b, c):
     ops += [("rx", ad, "CONNACK", 1 + a % 5, 0)]
     if c & 8:
         ops.append(("fire", 1))
-    return ops + [("connect", ad, 0, c & 1, 0), ("rx", ad, "CONNACK", 0, 0)]
+    return ops + [("connect", ad, 0, c & 1, 0x80 if c & 16 else 0), ("rx", ad, "CONNACK", 0, 0)]
 
 
 T_RETRY = G.Table([
@@ -517,7 +517,7 @@ class C08(SessionProp):
     id = "C08"
     monitor = staticmethod(M.mon_c08)
     table = T_RETRY
-    cfg_extra = dict(reconnect_refused=True)
+    cfg_extra = dict(reconnect_refused=True, flip_version=True)
     max_words = 45
     pre_kwargs = dict(keepalives=(0, 0, 0, 0, 60), connack=(True, True, False))
     rule = ("Histories over QoS 1/2 publishes (payload 0..20 kB), subscribe, unsubscribe, PUBREC (so that PUBREL "
@@ -2056,7 +2056,8 @@ T_CLOSE = G.Table([
 ])
 ALL_TABLES = [T_MIX, T_PUB, T_PUBWIN, T_Q2, T_SUB, T_RETRY, T_KA, T_PERS, T_CLEAN, T_HS, T_INB, T_CLOSE]
 C13.tables = ALL_TABLES
-C13.cfg_extra = dict(reconnect_refused=True)
+C13.cfg_extra = dict(reconnect_refused=True, flip_version=True)
+C18.cfg_extra = dict(flip_version=True)
 C18.tables = [T_CLOSE] * 8 + ALL_TABLES
 
 
@@ -2065,6 +2066,7 @@ class C02live(SessionProp):
     id = None
     monitor = staticmethod(M.mon_wire)
     tables = [T_RETRY, T_MIX, T_Q2, T_PERS, T_SUB, T_CLOSE, T_PUBWIN, T_PERS]
+    cfg_extra = dict(flip_version=True)
     table = T_MIX
     max_words = 35
     quick_examples = 1200
